@@ -7,8 +7,12 @@ ROOT = os.path.dirname(os.path.dirname(os.path.abspath(__file__)))
 PROPS = {}
 for _p in sorted(glob.glob(os.path.join(ROOT, "props", "C*.json"))):
     PROPS[os.path.basename(_p)[:-5]] = json.load(open(_p))
+# properties whose check is still under construction (not registered in MANIFEST.json yet)
+_WIP = os.path.join(ROOT, "props", "wip.json")
+WIP = set(json.load(open(_WIP))) if os.path.exists(_WIP) else set()
+CLAIMED = {k: v for k, v in PROPS.items() if k not in WIP}
 ALL = ["C%02d" % i for i in range(1, 21)]
 _NA = os.path.join(ROOT, "props", "not_claimed.json")
 _reasons = json.load(open(_NA)) if os.path.exists(_NA) else {}
 NOT_CLAIMED = {p: _reasons.get(p, "check not yet built in this revision of /verif (model-based check under construction; see DESIGN.md section 10)")
-               for p in ALL if p not in PROPS}
+               for p in ALL if p not in CLAIMED}
